@@ -140,7 +140,8 @@ class ProgramOptionsSave(Contract):
             if fd is None:
                 # a helper outside namespace vfps (e.g. in an anonymous namespace of the same file): dump it by name
                 nm_ = (callee.get('referencedDecl') or {}).get('name')
-                if nm_ and nm_ not in ('store', 'notify', 'parse_config_file', 'parse_command_line', 'printText', 'exists', 'is_regular_file'):
+                nlits = sum(1 for a__ in n['inner'][1:] if strlit(a__))
+                if nm_ and nlits >= 2 and nm_ not in ('store', 'notify', 'parse_config_file', 'parse_command_line', 'printText', 'exists', 'is_regular_file'):
                     try:
                         tu2 = tc.get(self.tu, nm_)
                         cands = [f_ for q_, fl_ in tu2.funcs.items() for f_ in fl_ if q_.split('::')[-1] == nm_]
@@ -169,15 +170,54 @@ class ProgramOptionsSave(Contract):
                             cl, al = strlit(args_[lp[0]]), strlit(args_[rp[0]])
                             if cl and al:
                                 copies.add((cl, al))
+        # every such copy is guarded by `count(alias)` alone: a further condition (e.g. on the target's defaulted() flag) leaves the
+        # stored value behind while notify() still hands the legacy value to the shared member
+        guarded_extra = set()
+        def _scan_ifs(fnode, resolve):
+            for n in _walk(fnode):
+                if n.get('kind') != 'IfStmt':
+                    continue
+                cond, thn = n['inner'][0], n['inner'][1]
+
+                def shallow(x):
+                    # the statements this `if` guards directly (nested ifs have their own, inner, guard)
+                    if isinstance(x, dict):
+                        yield x
+                        for ch in x.get('inner', []) or []:
+                            if isinstance(ch, dict) and ch.get('kind') == 'IfStmt':
+                                continue
+                            yield from shallow(ch)
+                for a_ in shallow(thn):
+                    pair = resolve(a_)
+                    if pair is None:
+                        continue
+                    mems = set(x.get('name') for x in _walk(cond) if x.get('kind') == 'MemberExpr')
+                    logic = [x for x in _walk(cond) if x.get('kind') == 'BinaryOperator' and x.get('opcode') in ('&&', '||')]
+                    neg = [x for x in _walk(cond) if x.get('kind') == 'UnaryOperator' and x.get('opcode') == '!']
+                    if not mems <= {'count', '_vm'} or logic or neg:
+                        guarded_extra.add(pair)
+
+        def _direct(a_):
+            if a_.get('kind') in ('CXXOperatorCallExpr', 'BinaryOperator') and len(a_.get('inner', [])) >= 2:
+                isassign = (a_.get('kind') == 'BinaryOperator' and a_.get('opcode') == '=') or \
+                           any((y.get('referencedDecl') or {}).get('name') == 'operator=' for y in _walk(a_['inner'][0]))
+                if isassign:
+                    ops = a_['inner'][-2:]
+                    l_ = [y.get('value', '').strip('"') for y in _walk(ops[0]) if y.get('kind') == 'StringLiteral']
+                    r_ = [y.get('value', '').strip('"') for y in _walk(ops[1]) if y.get('kind') == 'StringLiteral']
+                    if len(l_) == 1 and len(r_) == 1 and (l_[0], r_[0]) in copies:
+                        return (l_[0], r_[0])
+            return None
+        _scan_ifs(parses[0], _direct)
         nalias = 0
         for mem, names in sorted(bound.items()):
             canon = [nm for nm in names if nm not in skipped]
             for alias in [nm for nm in names if nm in skipped]:
                 for c_ in canon:
                     nalias += 1
-                    ok = (c_, alias) in copies
+                    ok = (c_, alias) in copies and (c_, alias) not in guarded_extra
                     ex.obls.append(Obligation(f'ProgramOptions::save#alias.{alias}.value_reaches_{c_}', {'C13'}, [], z3.BoolVal(ok), 'postcondition', None,
-                                              f'legacy option {alias} and {c_} are bound to the same member {mem}; save() skips {alias}, so parse() must copy its value into the stored value of {c_} (found copies {sorted(copies)})'))
+                                              f'legacy option {alias} and {c_} are bound to the same member {mem}; save() skips {alias}, so parse() must copy its value into the stored value of {c_} whenever {alias} is given (found copies {sorted(copies)}, conditionally guarded: {sorted(guarded_extra)})'))
         # ---- the writer leaves out an entry only by NAME.  If it also leaves out entries whose defaulted() flag is set, then
         # no stored value may have been changed in place (the copies above keep the flag): such an option would be dropped
         skips_defaulted = False
@@ -883,3 +923,49 @@ class MakeUniquePS(Use):
         # defaulted trailing parameters of the constructor: zoom = 1, data = nullptr
         Use.__call__(self, ex, n, st, None, argn, this_override='heap:ps')
         return ObjRef('heap:ps', 'std::unique_ptr<vfps::PhaseSpace>', null=z3.BoolVal(False))
+
+
+class MakePSFromHDF5(Contract):
+    """makePSFromHDF5(fname, startdiststep, qmin,qmax,pmin,pmax, oclh, beam_charge, beam_current, xscale, yscale): a thin wrapper —
+    every argument reaches HDF5File::readPhaseSpace in the right position and, for the record index, without a conversion that
+    could change its value (C11: the chosen record; C10: charge and current of this run).  Facts of the real AST."""
+    name = 'vfps::makePSFromHDF5'
+    tu = 'src/PS/PhaseSpaceFactory.cpp'
+    tags = {'C11', 'C10', 'C17'}
+    WANT = ['fname', 'qmin', 'qmax', 'pmin', 'pmax', 'oclh', 'beam_charge', 'beam_current', 'xscale', 'yscale', 'startdiststep']
+
+    def custom_verify(self, scratch, tc):
+        tu = tc.get(self.tu)
+        fn = tu.function(self.name)
+        ex = Exec(tu, fn, 'makePSFromHDF5')
+        ex.default_tags = set(self.tags)
+        pnames = [p.get('name') for p in params(fn)]
+        for w in self.WANT:
+            if w not in pnames:
+                raise ExtractionError(f'makePSFromHDF5: parameter {w} does not exist any more (found {pnames})')
+        calls = [n for n in _walk(body(fn)) if n.get('kind') in ('CallExpr', 'CXXMemberCallExpr') and
+                 any((y.get('referencedDecl') or {}).get('name') == 'readPhaseSpace' or y.get('name') == 'readPhaseSpace' for y in _walk(n['inner'][0]))]
+        if len(calls) != 1:
+            raise ExtractionError(f'makePSFromHDF5: {len(calls)} calls of readPhaseSpace')
+        args = calls[0]['inner'][1:]
+        got = []
+        for a in args:
+            nm = [(x.get('referencedDecl') or {}).get('name') for x in _walk(a) if x.get('kind') == 'DeclRefExpr' and (x.get('referencedDecl') or {}).get('kind') == 'ParmVarDecl']
+            got.append(nm[0] if len(set(nm)) == 1 else tuple(nm))
+        obls = [Obligation('makePSFromHDF5#forwards_arguments_in_order', {'C11', 'C10', 'C17'}, [], z3.BoolVal(got == self.WANT), 'postcondition', None,
+                           f'readPhaseSpace({", ".join(self.WANT)}); found {got}')]
+        # the record index: parameter type of the wrapper and type at the call must hold every value main passes (int64_t option)
+        stepp = [p for p in params(fn) if p.get('name') == 'startdiststep'][0]
+        pt = parse_type(stepp['type'])
+        wide = pt.kind == 'int' and pt.signed and pt.bits >= 64
+        casts = [x for x in _walk(args[-1]) if x.get('kind') == 'ImplicitCastExpr' and x.get('castKind') == 'IntegralCast'] if len(args) == len(self.WANT) else []
+        lossy = []
+        for c_ in casts:
+            tt = parse_type(c_['type'])
+            if not (tt.kind == 'int' and tt.signed and tt.bits >= 64):
+                lossy.append(c_['type'].get('qualType'))
+        obls.append(Obligation('makePSFromHDF5#record_index_not_narrowed', {'C11'}, [], z3.BoolVal(bool(wide) and not lossy), 'postcondition', None,
+                               f'startdiststep is declared {stepp["type"].get("qualType")} and handed on {"with conversions to " + str(lossy) if lossy else "unconverted"}: negative values (records counted from the end) must survive'))
+        ex.obls = obls + [Obligation('makePSFromHDF5#canary', set(), [], z3.BoolVal(False), 'canary', None, '')]
+        info = {'unit': self.name, 'file': self.tu, 'sha': tu.sha, 'cases': 1, 'lines': [None, None], 'extract_s': 0, 'facts': {'forwarded': [str(g) for g in got]}}
+        return [ex], info
